@@ -107,8 +107,8 @@ def strategy(spec, ctx):
     if ctx.shard_index % 2:
         feats = ['grp', 'cap', 'cat', 'alt', 'strarg', 'meta']
     return st.fixed_dictionaries({
-        'tree': st.one_of(dsl.tree_strategy(feats, max_leaves=spec.get('max_leaves', 5), leaf=leaf()),
-                          chain_strategy().map(dsl.uniquify_names)),
+        'tree': st.one_of(*[dsl.tree_strategy(feats, max_leaves=spec.get('max_leaves', 5), leaf=leaf())] * 4,
+                          *[chain_strategy().map(dsl.uniquify_names)] * 4, dsl.deep_tree_strategy(feats, leaf=leaf())),
         'tseed': st.integers(0, 2 ** 16),
         'ref': dsl.refspec_strategy(['cat', 'alt', 'q', 'grp', 'meta', 'strarg']),
     })
